@@ -273,6 +273,9 @@ func check(c Case) engine.Outcome {
 				x.Volume = 0
 			case 2:
 				x.Open, x.High, x.Low = x.Close, x.Close, x.Close
+			case 3:
+				// a settlement / adjusted close outside the traded range of the bar
+				x.High, x.Low, x.Open = x.Close*0.875, x.Close*0.75, x.Close*0.8125
 			}
 		}
 		bh := pipe.Run([][]*asset.Snapshot{sn}, pipe.Opts{}, func(cs []<-chan *asset.Snapshot) []<-chan float64 {
